@@ -158,10 +158,24 @@ fn rec_from_str(text: &str) -> Result<Repr, ReserveError> {
     Ok(Repr::new())
 }
 
+/// the 64-bit writers must not be what formats a 128-bit value (they are replaced here so that a
+/// detour through them is a cheap, visible event instead of a symbolic run of the digit loop)
+static mut OTHER_PATH: usize = 0;
+fn other_path_i64(_x: i64) -> Result<Repr, ReserveError> {
+    unsafe { OTHER_PATH += 1 };
+    Ok(Repr::new())
+}
+fn other_path_u64(_x: u64) -> Result<Repr, ReserveError> {
+    unsafe { OTHER_PATH += 1 };
+    Ok(Repr::new())
+}
+
 // @harness name=num_128_delegates props=C14 class=U tier=quick fn=NumToRepr<i128>::into_repr,NumToRepr<u128>::into_repr
 #[kani::proof]
 #[kani::stub(itoa::Buffer::format, rec_itoa)]
 #[kani::stub(Repr::from_str, rec_from_str)]
+#[kani::stub(<i64 as crate::repr::num_to_repr::NumToRepr>::into_repr, other_path_i64)]
+#[kani::stub(<u64 as crate::repr::num_to_repr::NumToRepr>::into_repr, other_path_u64)]
 fn num_128_delegates() {
     let signed: bool = kani::any();
     let bits: [u8; 16] = kani::any();
